@@ -11,7 +11,7 @@ from engine.expr import Ex, norm, show, walk, alts
 from engine.intervals import dominating_facts
 from engine.mir import AnchorLost, callee_matches
 from engine.panics import enumerate_sites, discharge, const_return_summaries
-from engine.query import calls_matching, where, ret_alts
+from engine.query import self_rooted, calls_matching, where, ret_alts
 from rules.shared_panic import is_read_root, is_write_root
 
 IO_RESULT = re.compile(r"^std::result::Result<.*(std::io::Error|result::ZipError)>$")
@@ -23,7 +23,7 @@ PANICKERS = re.compile(r"Result::<T, E>::(unwrap|expect|unwrap_err|expect_err)$"
 REVIEWED_DROPRES = {
     "write::<impl std::ops::Drop for write::zip_writer::ZipWriter<W>>::drop|write_fmt|discarded":
         "best-effort diagnostic on stderr inside Drop; a destructor cannot report it",
-    "read::<impl read::zip_archive::ZipArchive<R>>::get_directory_counts|seek|tested:is_ok":
+    "read::<impl read::zip_archive::ZipArchive<R>>::get_directory_counts|seek|tested":
         "ZIP64 locator probe at End(-(42+comment)): failure (negative position on a short file) means 'no locator', the expected outcome",
     "write::<impl write::zip_writer::ZipWriter<A>>::new_append|seek|discarded":
         "reposition onto the old directory: if it fails the sink is still right after the old central directory (nothing else touched the "
@@ -140,7 +140,7 @@ def dropres_rules(facts, rep, reach):
                 if conv:
                     rep.ok(rule, "%s|%s|converted" % (f.path, nm), w, "failure of %s is converted into an error return" % nm)
                     continue
-                key = "%s|%s|%s" % (f.path, nm, tested[0])
+                key = "%s|%s|tested" % (f.path, nm)
             else:
                 key = "%s|%s|discarded" % (f.path, nm)
             if key in REVIEWED_DROPRES:
@@ -215,6 +215,12 @@ def swallow_rules(facts, rep, reach):
                             seen_.add(b_)
                             if b_ in errb:
                                 return True
+                            # the arm builds an Err value (possibly of an inlined helper, re-raised by the caller's `?`)
+                            for st_ in f.blocks[b_]["stmts"]:
+                                if st_["k"] == "assign" and st_["rv"]["k"] == "agg" and st_["rv"].get("ak") == "adt" and st_["rv"].get("variant") == "Err":
+                                    return True
+                                if st_["k"] == "assign" and st_["rv"]["k"] == "agg" and st_["rv"].get("ak") == "adt" and st_["rv"].get("variant") in ("Ok", "Some", "None"):
+                                    return False
                             tb_ = f.term(b_)
                             if not tb_ or tb_["k"] in ("switch", "return"):
                                 return False
@@ -338,7 +344,7 @@ def poison_rules(facts, rep):
             # blocks that assign back to the same place: `self.inner = ..` / `*self = ..`
             restore = set()
             for b2, si2, s2 in f.stmts():
-                if s2["k"] == "assign" and s2["place"]["l"] == 1 and s2["place"]["p"]:
+                if s2["k"] == "assign" and s2["place"]["p"] and self_rooted(f, s2["place"], ex, (b2, si2)):
                     fp = [p.get("n") for p in s2["place"]["p"] if p["k"] == "field"]
                     if fp == ["inner"] or (not fp and [p["k"] for p in s2["place"]["p"]] == ["deref"]):
                         restore.add(b2)
